@@ -15,6 +15,7 @@ import io
 import json
 import os
 import random
+import sys
 import time
 from collections import Counter
 from typing import Any
@@ -1208,6 +1209,8 @@ def run(ctx: Ctx) -> int:
 			ctx.generated_tables.extend(gen_errors.generate())
 		except Exception as e:  # noqa: BLE001
 			translate_ok, translate_msg = False, f'{type(e).__name__}: {e}'
+			ctx.notes.append(f'translator failed: {translate_msg}')
+			print(f'[{PROP}] translator failed (the tie is broken): {translate_msg}', file=sys.stderr)
 	proof = common.prove(ctx, PROP, leanchecker=ctx.thorough)
 	streams: list[Stream] = []
 	if proof.built:
